@@ -18,6 +18,7 @@ import (
 	"math"
 	"strconv"
 	"strings"
+	"sync"
 
 	"golang.org/x/tools/go/ast/astutil"
 	"golang.org/x/tools/go/ssa"
@@ -25,9 +26,14 @@ import (
 
 const c05ResultsType = "[]*github.com/notaryproject/notation-core-go/revocation/result.CertRevocationResult"
 
-// c05IsAggregator: a product function with a []*result.CertRevocationResult parameter.
+// c05IsAggregator: a product function with a []*result.CertRevocationResult parameter whose first result is a
+// result.Result (types of notation-core-go): what turns the per-certificate results into one verdict. A helper that is
+// merely handed the results (and returns, say, the ValidationResult) is not the aggregator.
 func c05IsAggregator(w *World, g *ssa.Function) bool {
 	if g == nil || g.Blocks == nil || !w.IsProductFn(g) {
+		return false
+	}
+	if r := g.Signature.Results(); r.Len() == 0 || namedOf(r.At(0).Type()) != "core/revocation/result.Result" {
 		return false
 	}
 	for i := 0; i < g.Signature.Params().Len(); i++ {
@@ -38,12 +44,29 @@ func c05IsAggregator(w *World, g *ssa.Function) bool {
 	return false
 }
 
+type c05Sites struct {
+	sites  []*ssa.Call
+	closed bool
+}
+
+// the call sites of a function are a fact of the loaded program (an *ssa.Function belongs to one World): computed once
+var (
+	c05SitesMu   sync.Mutex
+	c05SitesMemo = map[*ssa.Function]c05Sites{}
+)
+
 // c05CallSites returns the static call sites of fn in the product code. closed is
 // false when fn may also be entered in a way the list does not show: it is
 // exported, used as a value (method value, argument, closure binding), started by
 // go/defer, or is a method that an interface call of the module may dispatch to.
 // Only a closed list licenses "every caller passes …" arguments.
 func c05CallSites(w *World, fn *ssa.Function) (sites []*ssa.Call, closed bool) {
+	c05SitesMu.Lock()
+	defer c05SitesMu.Unlock()
+	if m, ok := c05SitesMemo[fn]; ok {
+		return m.sites, m.closed
+	}
+	defer func() { c05SitesMemo[fn] = c05Sites{sites, closed} }()
 	closed = fn.Parent() == nil && fn.Synthetic == "" && !token.IsExported(fn.Name())
 	var recvT types.Type
 	if r := fn.Signature.Recv(); r != nil {
@@ -163,15 +186,15 @@ func c05Lift(w *World, label string, fn, R *ssa.Function, depth int) []string {
 	return out
 }
 
-// c05Carry decides which validator calls' k-th result (k = 0: the per-certificate
-// results, k = 1: the error) a value hands on unchanged: the Extract itself, a phi
-// of carriers, or the corresponding result of a module helper every return of which
-// yields a carrier. A return of the helper that delivers a provably non-nil error of
-// its own is a failing exit of the helper (it adds no validator, and the caller's
-// error test covers it). ok=false: the value may be something else.
+// c05Carry decides which of the target calls' k-th result (validator calls: k = 0 the per-certificate results, k = 1
+// the error; aggregator call: k = 0 the aggregate) a value hands on unchanged: the Extract itself, a phi of carriers, the
+// corresponding result of a module helper every return of which yields a carrier, or a parameter of a helper with a
+// closed list of call sites every one of which passes a carrier. A return of the helper that delivers a provably
+// non-nil error of its own is a failing exit of the helper (it adds no target, and the caller's error test covers it).
+// ok=false: the value may be something else.
 type c05Carry struct {
-	w      *World
-	vc, vv *ssa.Call
+	w       *World
+	targets map[*ssa.Call]bool
 }
 
 func (x *c05Carry) of(v ssa.Value, k int, depth int, seen map[ssa.Value]bool) (map[*ssa.Call]bool, bool) {
@@ -180,13 +203,18 @@ func (x *c05Carry) of(v ssa.Value, k int, depth int, seen map[ssa.Value]bool) (m
 	}
 	out := map[*ssa.Call]bool{}
 	switch t := v.(type) {
-	case *ssa.Extract:
-		call, ok := t.Tuple.(*ssa.Call)
-		if !ok {
+	case *ssa.Extract, *ssa.Call:
+		call, idx := callOf(v), 0
+		if e, isE := v.(*ssa.Extract); isE {
+			idx = e.Index
+		} else if _, isTuple := v.Type().(*types.Tuple); isTuple {
 			return nil, false
 		}
-		if call == x.vc || call == x.vv {
-			if t.Index != k {
+		if call == nil {
+			return nil, false
+		}
+		if x.targets[call] {
+			if idx != k {
 				return nil, false
 			}
 			out[call] = true
@@ -200,12 +228,12 @@ func (x *c05Carry) of(v ssa.Value, k int, depth int, seen map[ssa.Value]bool) (m
 		n := 0
 		for _, b := range g.Blocks {
 			r, ok := blockTerm(b).(*ssa.Return)
-			if !ok || t.Index >= len(r.Results) {
+			if !ok || idx >= len(r.Results) {
 				continue
 			}
 			last := r.Results[len(r.Results)-1]
-			failing := isErrorType(last.Type()) && gi.nonNil(last, b)
-			s, ok := x.of(r.Results[t.Index], k, depth-1, seen)
+			failing := isErrorType(last.Type()) && c05NonNilAt(gi, last, b)
+			s, ok := x.of(r.Results[idx], k, depth-1, seen)
 			if !ok {
 				if failing {
 					// a failing exit of the helper: its error is non-nil (the caller's error test, which
@@ -236,13 +264,98 @@ func (x *c05Carry) of(v ssa.Value, k int, depth int, seen map[ssa.Value]bool) (m
 			}
 		}
 		return out, true
+	case *ssa.Parameter:
+		// what the helper receives is what its callers pass: all of them must be known
+		fn := t.Parent()
+		sites, closed := c05CallSites(x.w, fn)
+		if !closed || len(sites) == 0 {
+			return nil, false
+		}
+		idx := -1
+		for i, q := range fn.Params {
+			if q == t {
+				idx = i
+			}
+		}
+		for _, st := range sites {
+			if idx < 0 || idx >= len(st.Call.Args) {
+				return nil, false
+			}
+			s, ok := x.of(st.Call.Args[idx], k, depth-1, seen)
+			if !ok {
+				return nil, false
+			}
+			for c := range s {
+				out[c] = true
+			}
+		}
+		return out, true
 	}
 	return nil, false
 }
 
-func (x *c05Carry) both(v ssa.Value, k int) bool {
-	s, ok := x.of(v, k, 4, map[ssa.Value]bool{})
-	return ok && len(s) == 2 && s[x.vc] && s[x.vv]
+// all: v hands on the k-th result of every target call (and of nothing else).
+func (x *c05Carry) all(v ssa.Value, k int) bool {
+	s, ok := x.of(v, k, 5, map[ssa.Value]bool{})
+	return ok && len(s) == len(x.targets)
+}
+
+// carriers: the values of fn (instructions and parameters) accepted by typeOK that hand on the k-th result of every target.
+func (x *c05Carry) carriers(fn *ssa.Function, k int, typeOK func(types.Type) bool) map[ssa.Value]bool {
+	out := map[ssa.Value]bool{}
+	for _, p := range fn.Params {
+		if typeOK(p.Type()) && x.all(p, k) {
+			out[p] = true
+		}
+	}
+	for _, b := range fn.Blocks {
+		for _, in := range b.Instrs {
+			if v, ok := in.(ssa.Value); ok && typeOK(v.Type()) && x.all(v, k) {
+				out[v] = true
+			}
+		}
+	}
+	return out
+}
+
+// c05EqConstEdges: the If edges of fn on which one of the given values is known to equal the integer constant k
+// (`v == k` true edge, `v != k` false edge, through negations; a switch case is such a comparison), as labels.
+func c05EqConstEdges(fi *FnInfo, vals map[ssa.Value]bool, k int64) []string {
+	isK := func(v ssa.Value) bool {
+		c, ok := v.(*ssa.Const)
+		if !ok || c.Value == nil || c.Value.Kind() != constant.Int {
+			return false
+		}
+		n, exact := constant.Int64Val(c.Value)
+		return exact && n == k
+	}
+	var out []string
+	for _, b := range fi.Fn.Blocks {
+		iff, ok := blockTerm(b).(*ssa.If)
+		if !ok || len(b.Succs) != 2 {
+			continue
+		}
+		cond := iff.Cond
+		flip := false
+		for {
+			u, ok := cond.(*ssa.UnOp)
+			if !ok || u.Op != token.NOT {
+				break
+			}
+			flip = !flip
+			cond = u.X
+		}
+		bo, ok := cond.(*ssa.BinOp)
+		if !ok || (bo.Op != token.EQL && bo.Op != token.NEQ) {
+			continue
+		}
+		if !(vals[bo.X] && isK(bo.Y)) && !(vals[bo.Y] && isK(bo.X)) {
+			continue
+		}
+		truth := (bo.Op == token.EQL) != flip
+		out = append(out, condLabel(iff.Cond, truth))
+	}
+	return out
 }
 
 // c05NilEdges: the If edges of fn on which one of the given values is known to be
@@ -668,24 +781,73 @@ func c05ChainIndex(v ssa.Value, chain ssa.Value, depth int) ssa.Value {
 	return found
 }
 
-// c05Anchors finds R (the function that hands the validators' results to the aggregator), the
-// aggregator A (by its []*result.CertRevocationResult parameter) and the two validator calls (by the
-// interface method invoked — names of notation-core-go), in R itself or in a helper R reaches by
-// static calls.
-func c05Anchors(w *World) (R, A *ssa.Function, aCall, vcCall, vCall *ssa.Call, nCand int) {
-	for _, fn := range w.FuncsOfPkg("verifier") {
-		var ac *ssa.Call
-		for _, ci := range allCalls(fn) {
-			if call, ok := ci.(*ssa.Call); ok && c05IsAggregator(w, staticCallee(call)) {
-				ac = call
-			}
+// c05Anch: the anchors of the rule set, found by role.
+//
+//   - the two validator calls by the interface method they invoke (names of notation-core-go);
+//   - the aggregator A by its signature (c05IsAggregator), aCall the one call to it from outside the aggregator;
+//   - the candidates: the functions of the verifier package whose first result is an object with an error field (the
+//     ValidationResult) and that reach — themselves or through static calls into the module, at whatever boundary
+//     helpers were cut — exactly one call of each validator interface and the aggregator call. Top is the candidate no
+//     other candidate reaches; Cands lists Top and the candidates below it (an entry that delegates to an inner function
+//     after some checks), top first.
+type c05Anch struct {
+	Top, A               *ssa.Function
+	Cands                []*ssa.Function
+	isCand               map[*ssa.Function]bool
+	aCall, vcCall, vCall *ssa.Call
+	inA                  map[*ssa.Function]bool // the aggregator and what it reaches
+}
+
+// between: the functions fn reaches (itself included) outside the aggregator.
+func (an *c05Anch) between(w *World, fn *ssa.Function) []*ssa.Function {
+	var out []*ssa.Function
+	for _, g := range w.moduleCallees(fn) {
+		if !an.inA[g] {
+			out = append(out, g)
 		}
-		if ac == nil {
+	}
+	return out
+}
+
+func c05FindAnchors(w *World) (*c05Anch, int) {
+	type cand struct {
+		fn         *ssa.Function
+		ac, vc, vv *ssa.Call
+		reach      map[*ssa.Function]bool
+		inA        map[*ssa.Function]bool
+	}
+	var cands []cand
+	for _, fn := range w.FuncsOfPkg("verifier") {
+		if fn.Blocks == nil || c05IsAggregator(w, fn) {
 			continue
 		}
+		if r := fn.Signature.Results(); r.Len() == 0 || errFieldOf(r.At(0).Type()) < 0 {
+			continue
+		}
+		callees := w.moduleCallees(fn)
+		var acs []*ssa.Call
+		for _, g := range callees {
+			if c05IsAggregator(w, g) {
+				continue
+			}
+			for _, ci := range allCalls(g) {
+				if call, ok := ci.(*ssa.Call); ok && c05IsAggregator(w, staticCallee(call)) {
+					acs = append(acs, call)
+				}
+			}
+		}
+		if len(acs) != 1 {
+			continue
+		}
+		inA := map[*ssa.Function]bool{}
+		for _, g := range w.moduleCallees(staticCallee(acs[0])) {
+			inA[g] = true
+		}
 		var vcs, vs []*ssa.Call
-		for _, g := range w.moduleCallees(fn) {
-			if g == staticCallee(ac) {
+		reach := map[*ssa.Function]bool{}
+		for _, g := range callees {
+			reach[g] = true
+			if inA[g] {
 				continue
 			}
 			for _, ci := range allCalls(g) {
@@ -702,11 +864,100 @@ func c05Anchors(w *World) (R, A *ssa.Function, aCall, vcCall, vCall *ssa.Call, n
 			}
 		}
 		if len(vcs) == 1 && len(vs) == 1 {
-			R, A, aCall, vcCall, vCall = fn, staticCallee(ac), ac, vcs[0], vs[0]
-			nCand++
+			cands = append(cands, cand{fn, acs[0], vcs[0], vs[0], reach, inA})
 		}
 	}
-	return
+	var tops []cand
+	for _, c := range cands {
+		top := true
+		for _, d := range cands {
+			if d.fn != c.fn && d.reach[c.fn] && !c.reach[d.fn] {
+				top = false
+			}
+		}
+		if top {
+			tops = append(tops, c)
+		}
+	}
+	if len(tops) != 1 {
+		return nil, len(tops)
+	}
+	t := tops[0]
+	an := &c05Anch{Top: t.fn, A: staticCallee(t.ac), aCall: t.ac, vcCall: t.vc, vCall: t.vv, inA: t.inA, isCand: map[*ssa.Function]bool{}}
+	an.Cands = append(an.Cands, t.fn)
+	an.isCand[t.fn] = true
+	for _, c := range cands {
+		if c.fn != t.fn && t.reach[c.fn] && c.ac == t.ac && c.vc == t.vc && c.vv == t.vv {
+			an.Cands = append(an.Cands, c.fn)
+			an.isCand[c.fn] = true
+		}
+	}
+	return an, 1
+}
+
+// c05Forwarded: v, returned by r, is the unchanged result object of a call to another candidate: nothing but the return
+// (and the return block's phi) uses it, so no store can alter its error field after the callee delivered it. The
+// success paths through such an exit are success paths of the callee, whose exits are judged in its own frame.
+func c05Forwarded(an *c05Anch, in *ssa.Function, v ssa.Value, r *ssa.Return) (*ssa.Call, bool) {
+	call, ok := v.(*ssa.Call)
+	if !ok || call.Referrers() == nil {
+		return nil, false
+	}
+	g := staticCallee(call)
+	if g == nil || g == in || !an.isCand[g] {
+		return nil, false
+	}
+	for _, ref := range *call.Referrers() {
+		switch x := ref.(type) {
+		case *ssa.DebugRef:
+		case *ssa.Return:
+			if x != r {
+				return nil, false
+			}
+		case *ssa.Phi:
+			if x.Block() != r.Block() || len(r.Results) == 0 || r.Results[0] != ssa.Value(x) {
+				return nil, false
+			}
+		default:
+			return nil, false
+		}
+	}
+	return call, true
+}
+
+// c05ForwardedCalls: the forwarded calls (c05Forwarded) of fn, each with the blocks it is returned from.
+func c05ForwardedCalls(an *c05Anch, fn *ssa.Function) map[*ssa.Call]bool {
+	out := map[*ssa.Call]bool{}
+	for _, b := range fn.Blocks {
+		r, ok := blockTerm(b).(*ssa.Return)
+		if !ok || len(r.Results) == 0 {
+			continue
+		}
+		vs := []ssa.Value{r.Results[0]}
+		if p, ok := r.Results[0].(*ssa.Phi); ok && p.Block() == b {
+			vs = p.Edges
+		}
+		for _, v := range vs {
+			if call, ok := c05Forwarded(an, fn, v, r); ok {
+				out[call] = true
+			}
+		}
+	}
+	return out
+}
+
+// c05Labels: the facts of the given kind (computed per function by edges) that can appear on an exit of `to`: found in
+// `to` itself or in any function it reaches outside the aggregator, and rendered in the frame of `to` by substituting
+// parameters with the arguments of the call sites (what the engine does when it composes a callee's summary on the
+// edge that tests the callee's verdict).
+func c05Labels(w *World, an *c05Anch, to *ssa.Function, edges func(f *ssa.Function) []string) []string {
+	var out []string
+	for _, f := range an.between(w, to) {
+		for _, l := range edges(f) {
+			out = append(out, c05Lift(w, l, f, to, 4)...)
+		}
+	}
+	return uniq(sortStrings(out))
 }
 
 // ---- range-over-func loops over the standard slice iterators ---------------------------
@@ -897,10 +1148,598 @@ func c05Desugar(c *Ctx, A *ssa.Function) (*World, *ssa.Function) {
 		c.Notes = append(c.Notes, "C05: the index-loop form of the aggregator's iterator loop could not be loaded: "+trunc(err.Error(), 300))
 		return nil, nil
 	}
-	_, A2, _, _, _, n := c05Anchors(w2)
-	if n != 1 || A2 == nil || A2.Name() != A.Name() || A2.Signature.String() != A.Signature.String() {
+	an2, n := c05FindAnchors(w2)
+	if n != 1 || an2 == nil || an2.A == nil || an2.A.Name() != A.Name() || an2.A.Signature.String() != A.Signature.String() {
 		return nil, nil
 	}
+	A2 := an2.A
 	c.Notes = append(c.Notes, fmt.Sprintf("C05: %d range-over-func loop(s) over slices.Backward/slices.All in %s decided on the equivalent index loop", len(rws), fnName(A)))
 	return w2, A2
+}
+
+// ---- result objects built by a constructor function ----------------------------------------
+//
+// `return &ValidationResult{…, Error: e}` may be written `return newResult(…, e)` with
+//
+//	func newResult(…, err error) *ValidationResult { return &ValidationResult{…, Error: err} }
+//
+// (a function, a method, a closure, a constructor delegating to a more general one, any
+// parameter order). The engine composes the constructor as a tail call, finds its only exit
+// success-capable (the field holds a parameter, which is not provably non-nil inside the
+// constructor) and so calls every exit of the revocation function that is built by it
+// success-capable, also the ones that pass fmt.Errorf(…). The fact needed is decided here
+// instead, one level up: *what* the constructor puts into the error field, as a function of
+// its parameters, evaluated with the arguments of the call site.
+
+const (
+	c05SrcUnknown = iota
+	c05SrcNil     // the error field is nil (never stored, or stored the constant nil)
+	c05SrcNonNil  // the error field holds a value that is provably non-nil in the constructor
+	c05SrcParam   // the error field holds the constructor's parameter Param, unchanged
+)
+
+type c05ErrSrc struct {
+	Kind  int
+	Param int
+}
+
+// c05CtorSources: for every return of the module function g, what the error field of the object
+// returned as k-th result holds when g returns. ok=false if some return is not understood.
+//
+// A return is understood if the object is
+//   - a fresh allocation of g that g only initialises (its referrers are field addresses that
+//     are stored to or loaded from, the return, debug info: it is not handed to a call, not
+//     stored anywhere, not captured), and whose error field is written either never, or by
+//     exactly one store in a block dominating the return, or by stores in the return's block
+//     only (the last one counts). Then at the return the field holds that store's value; or
+//   - the result of another such module function (a constructor delegating to a more general
+//     one), used for nothing but the return: its sources with the inner parameters replaced by
+//     the arguments of the inner call.
+//
+// Nothing else can reach the object between its allocation and the return of g (no reference to it
+// exists outside g's registers), so the field holds exactly that value when the caller receives it.
+func c05CtorSources(w *World, g *ssa.Function, k int, depth int) ([]c05ErrSrc, bool) {
+	if depth <= 0 || g == nil || g.Blocks == nil || !w.IsProductFn(g) {
+		return nil, false
+	}
+	gi := w.Info(g)
+	classify := func(val ssa.Value, at *ssa.BasicBlock) c05ErrSrc {
+		if p, ok := val.(*ssa.Parameter); ok {
+			for i, q := range g.Params {
+				if q == p {
+					return c05ErrSrc{c05SrcParam, i}
+				}
+			}
+			return c05ErrSrc{Kind: c05SrcUnknown}
+		}
+		if isNilConst(val) {
+			return c05ErrSrc{Kind: c05SrcNil}
+		}
+		if gi.nonNil(val, at) {
+			return c05ErrSrc{Kind: c05SrcNonNil}
+		}
+		return c05ErrSrc{Kind: c05SrcUnknown}
+	}
+	var out []c05ErrSrc
+	n := 0
+	for _, b := range g.Blocks {
+		r, ok := blockTerm(b).(*ssa.Return)
+		if !ok {
+			continue
+		}
+		if k >= len(r.Results) {
+			return nil, false
+		}
+		n++
+		switch rv := r.Results[k].(type) {
+		case *ssa.Alloc:
+			ef := errFieldOf(rv.Type())
+			if ef < 0 || rv.Referrers() == nil {
+				return nil, false
+			}
+			var stores []*ssa.Store
+			for _, ref := range *rv.Referrers() {
+				switch x := ref.(type) {
+				case *ssa.Return, *ssa.DebugRef:
+				case *ssa.FieldAddr:
+					if x.Referrers() == nil {
+						return nil, false
+					}
+					for _, u := range *x.Referrers() {
+						switch y := u.(type) {
+						case *ssa.Store:
+							if y.Addr != ssa.Value(x) {
+								return nil, false // the field's address is stored somewhere
+							}
+							if x.Field == ef {
+								stores = append(stores, y)
+							}
+						case *ssa.UnOp:
+							if y.Op != token.MUL {
+								return nil, false
+							}
+						case *ssa.DebugRef:
+						default:
+							return nil, false // the field's address escapes
+						}
+					}
+				default:
+					return nil, false // the object escapes before the return
+				}
+			}
+			switch {
+			case len(stores) == 0:
+				out = append(out, c05ErrSrc{Kind: c05SrcNil})
+			case len(stores) == 1 && (stores[0].Block() == b || stores[0].Block().Dominates(b)) && !c05InLoop(stores[0].Block()):
+				out = append(out, classify(stores[0].Val, stores[0].Block()))
+			default:
+				var last *ssa.Store
+				li := -1
+				for _, st := range stores {
+					if st.Block() != b {
+						return nil, false
+					}
+					if i := instrIndex(st); i > li {
+						last, li = st, i
+					}
+				}
+				out = append(out, classify(last.Val, b))
+			}
+		case *ssa.Call:
+			h := staticCallee(rv)
+			if h == nil || rv.Referrers() == nil || len(rv.Call.Args) != len(h.Params) {
+				return nil, false
+			}
+			for _, ref := range *rv.Referrers() {
+				switch ref.(type) {
+				case *ssa.Return, *ssa.DebugRef:
+				default:
+					return nil, false
+				}
+			}
+			inner, ok := c05CtorSources(w, h, 0, depth-1)
+			if !ok {
+				return nil, false
+			}
+			for _, s := range inner {
+				if s.Kind == c05SrcParam {
+					s = classify(rv.Call.Args[s.Param], rv.Block())
+				}
+				out = append(out, s)
+			}
+		default:
+			return nil, false
+		}
+	}
+	return out, n > 0
+}
+
+// c05InLoop: b lies on a cycle of its function's CFG.
+func c05InLoop(b *ssa.BasicBlock) bool {
+	seen := map[*ssa.BasicBlock]bool{}
+	stack := append([]*ssa.BasicBlock(nil), b.Succs...)
+	for len(stack) > 0 {
+		x := stack[len(stack)-1]
+		stack = stack[:len(stack)-1]
+		if x == b {
+			return true
+		}
+		if seen[x] {
+			continue
+		}
+		seen[x] = true
+		stack = append(stack, x.Succs...)
+	}
+	return false
+}
+
+// c05FailingCtorEdges finds CFG edges of fi.Fn all of whose continuations end in a failing exit
+// under the object mode because the object returned (result k) is the value of a constructor call
+//
+//	b:  [a = phi …]  x = ctor(…, a, …)  return x          or
+//	b:  x = phi [pred_i: ctor(…, a_i, …)] …  return x
+//
+// whose error field holds, by c05CtorSources, on every return of the constructor a provably non-nil
+// value or the parameter that receives an argument which is provably non-nil when b is entered
+// through that edge (`a` itself where the call is evaluated, or — if `a` is a phi of b — its operand
+// on the edge). x is used for nothing but the return (no later store can clear the field, nobody
+// else holds the object), so every path through such an edge returns an object with a non-nil Error:
+// it is no success path, and removing the edge removes no success path.
+func c05FailingCtorEdges(w *World, fi *FnInfo, k int) map[edgeKey]bool {
+	cut := map[edgeKey]bool{}
+	for _, b := range fi.Fn.Blocks {
+		for _, in := range b.Instrs {
+			switch in.(type) {
+			case *ssa.Defer, *ssa.Go:
+				return cut // as in c05FailingPhiEdges
+			}
+		}
+	}
+	cutEdge := func(b *ssa.BasicBlock, i int) {
+		pred := b.Preds[i]
+		n, j := 0, -1
+		for sj, s := range pred.Succs {
+			if s == b {
+				n++
+				j = sj
+			}
+		}
+		// b.Preds lists pred once per edge; with two edges from the same block the operand index does not
+		// name one of them: nothing is removed
+		if n == 1 {
+			cut[edgeKey{pred.Index, j}] = true
+		}
+	}
+	for _, b := range fi.Fn.Blocks {
+		r, ok := blockTerm(b).(*ssa.Return)
+		if !ok || k >= len(r.Results) {
+			continue
+		}
+		type cand struct {
+			x    ssa.Value
+			pred int
+		}
+		var cands []cand
+		resPhi, _ := r.Results[k].(*ssa.Phi)
+		if resPhi != nil && resPhi.Block() == b {
+			for i, e := range resPhi.Edges {
+				cands = append(cands, cand{e, i})
+			}
+		} else {
+			cands = append(cands, cand{r.Results[k], -1})
+		}
+		for _, cd := range cands {
+			call, ok := cd.x.(*ssa.Call)
+			if !ok || call.Referrers() == nil {
+				continue
+			}
+			g := staticCallee(call)
+			if g == nil || len(call.Call.Args) != len(g.Params) {
+				continue
+			}
+			clean := true
+			for _, ref := range *call.Referrers() {
+				switch x := ref.(type) {
+				case *ssa.DebugRef:
+				case *ssa.Return:
+					if x != r {
+						clean = false
+					}
+				case *ssa.Phi:
+					if x != resPhi || cd.pred < 0 {
+						clean = false
+					}
+				default:
+					clean = false
+				}
+			}
+			if !clean {
+				continue
+			}
+			srcs, ok := c05CtorSources(w, g, 0, 3)
+			if !ok || len(srcs) == 0 {
+				continue
+			}
+			failingOn := func(i int) bool {
+				for _, s := range srcs {
+					switch s.Kind {
+					case c05SrcNonNil:
+					case c05SrcParam:
+						a := call.Call.Args[s.Param]
+						if p, isPhi := a.(*ssa.Phi); isPhi && p.Block() == b && call.Block() == b {
+							if !c05NonNilAt(fi, p.Edges[i], b.Preds[i]) {
+								return false
+							}
+						} else if !c05NonNilAt(fi, a, call.Block()) {
+							return false
+						}
+					default:
+						return false
+					}
+				}
+				return true
+			}
+			if cd.pred >= 0 {
+				if failingOn(cd.pred) {
+					cutEdge(b, cd.pred)
+				}
+				continue
+			}
+			for i := range b.Preds {
+				if failingOn(i) {
+					cutEdge(b, i)
+				}
+			}
+		}
+	}
+	return cut
+}
+
+// c05FailingExitEdges: the union of the two ways an exit is recognised as failing one level above the
+// engine's own classification.
+func c05FailingExitEdges(w *World, fi *FnInfo, k int) map[edgeKey]bool {
+	cut := c05FailingPhiEdges(fi, k)
+	for e := range c05FailingCtorEdges(w, fi, k) {
+		cut[e] = true
+	}
+	return cut
+}
+
+// c05NonNilAt: v is provably non-nil when control is in block b — by the engine's rules, or (which the
+// engine does not try for a phi with a possibly-nil operand, such as the error variable assigned by both
+// validator calls) because b is only reachable through the non-nil edge of a branch that tests v itself:
+// an SSA value does not change between the test and b.
+func c05NonNilAt(fi *FnInfo, v ssa.Value, b *ssa.BasicBlock) bool {
+	if fi.nonNil(v, b) {
+		return true
+	}
+	for d := b; d != nil; d = d.Idom() {
+		id := d.Idom()
+		if id == nil {
+			break
+		}
+		iff, ok := blockTerm(id).(*ssa.If)
+		if !ok || len(id.Succs) != 2 || id.Succs[0] == id.Succs[1] {
+			continue
+		}
+		for si, s := range id.Succs {
+			if s == d && len(d.Preds) == 1 && c05EdgeSaysNonNil(iff.Cond, si == 0, v) {
+				return true
+			}
+		}
+	}
+	return false
+}
+
+// c05EdgeSaysNonNil: cond evaluating to truth implies that the SSA value v (this very value, not a second
+// load of the same location) is not nil.
+func c05EdgeSaysNonNil(cond ssa.Value, truth bool, v ssa.Value) bool {
+	for {
+		u, ok := cond.(*ssa.UnOp)
+		if !ok || u.Op != token.NOT {
+			break
+		}
+		truth = !truth
+		cond = u.X
+	}
+	bo, ok := cond.(*ssa.BinOp)
+	if !ok || (bo.Op != token.EQL && bo.Op != token.NEQ) {
+		return false
+	}
+	var o ssa.Value
+	if isNilConst(bo.Y) {
+		o = bo.X
+	} else if isNilConst(bo.X) {
+		o = bo.Y
+	}
+	return o != nil && o == v && (bo.Op == token.NEQ) == truth
+}
+
+func c05Desc(v ssa.Value) string {
+	if v == nil {
+		return "?"
+	}
+	return desc(v)
+}
+
+// c05FailingErrEdges: the CFG edges of a function whose last result is an error that lead only to a return of a
+// provably non-nil error (c05NonNilAt: also an error variable assigned on several paths and returned under the branch
+// that found it non-nil, which the engine's exit classification leaves success-capable). No success path uses them.
+func c05FailingErrEdges(fi *FnInfo) map[edgeKey]bool {
+	cut := map[edgeKey]bool{}
+	for _, b := range fi.Fn.Blocks {
+		r, ok := blockTerm(b).(*ssa.Return)
+		if !ok || len(r.Results) == 0 {
+			continue
+		}
+		last := r.Results[len(r.Results)-1]
+		if !isErrorType(last.Type()) {
+			continue
+		}
+		if p, isPhi := last.(*ssa.Phi); isPhi && p.Block() == b {
+			for i, e := range p.Edges {
+				if !c05NonNilAt(fi, e, b.Preds[i]) {
+					continue
+				}
+				n, j := 0, -1
+				for sj, s := range b.Preds[i].Succs {
+					if s == b {
+						n++
+						j = sj
+					}
+				}
+				if n == 1 {
+					cut[edgeKey{b.Preds[i].Index, j}] = true
+				}
+			}
+			continue
+		}
+		if c05NonNilAt(fi, last, b) {
+			cutInto(fi, b, cut)
+		}
+	}
+	return cut
+}
+
+// c05Augment: the facts of an exit, completed by composition with a refined summary of the helpers whose error the
+// exit is known to have found nil. The engine composes, on the edge `g(…)#err == nil`, the facts common to all exits
+// of g it calls success-capable; where it keeps a failing exit of g among them (c05FailingErrEdges), the facts of the
+// real success exits are lost in the intersection. They are recomputed here on g without those edges — a path on which
+// g returned a nil error uses none of them — and rendered in the caller's frame as the engine does.
+func c05Augment(w *World, fn *ssa.Function, ex *ExitSum) *ExitSum {
+	var extra map[string]string
+	for _, ci := range allCalls(fn) {
+		call, ok := ci.(*ssa.Call)
+		if !ok {
+			continue
+		}
+		g := staticCallee(call)
+		if g == nil || g.Blocks == nil || !w.IsProductFn(g) || len(call.Call.Args) != len(g.Params) {
+			continue
+		}
+		if r := g.Signature.Results(); r.Len() == 0 || !isErrorType(r.At(r.Len()-1).Type()) {
+			continue
+		}
+		site, ok := ex.Checked["EQ("+descTailErr(call)+",nil)"]
+		if !ok {
+			continue
+		}
+		gi := w.Info(g)
+		cut := c05FailingErrEdges(gi)
+		if len(cut) == 0 {
+			continue
+		}
+		sg := gi.summarizeFrom(Mode{Kind: mErr}, entryState(), cut)
+		if !sg.Complete {
+			continue
+		}
+		names := make([]string, len(g.Params))
+		descs := make([]string, len(g.Params))
+		for i, p := range g.Params {
+			names[i] = p.Name()
+			descs[i] = desc(call.Call.Args[i])
+		}
+		for l := range sg.Checked {
+			if extra == nil {
+				extra = map[string]string{}
+			}
+			extra[substParams(l, names, descs)] = site
+		}
+	}
+	if len(extra) == 0 {
+		return ex
+	}
+	out := *ex
+	out.Checked = map[string]string{}
+	for l, s := range ex.Checked {
+		out.Checked[l] = s
+	}
+	for l, s := range extra {
+		if _, ok := out.Checked[l]; !ok {
+			out.Checked[l] = s
+		}
+	}
+	return &out
+}
+
+// ---- the nil tests of the receiver fields computed by a predicate helper ------------------------
+//
+// `if !v.canCheck() { fail }` with `func (v *verifier) canCheck() bool { return v.a != nil || v.b != nil }`: the edge on
+// which the predicate says "there is a validator" is not an edge labelled NE(field,nil). What the both-nil obligation
+// needs is only that the edge cannot be taken when both fields are nil. That is decided by abstract interpretation of
+// the predicate (engine E6: every branch not decided by abstract values forks both ways, anything unknown is Top):
+// loads of the two fields — recognised by their printed form rendered in the caller's frame — evaluate to nil; if every
+// return then yields the same boolean constant, the opposite edge of the caller's branch is infeasible with both fields
+// nil and is removed. The predicate must not store to the fields (no Store to a field address in it).
+
+// c05PredicateEdges: the edges of fi.Fn that cannot be taken when the loads printed as one of recvs are nil, with the
+// number of distinct fields the deciding predicate read.
+func c05PredicateEdges(w *World, fi *FnInfo, recvs map[string]bool) map[edgeKey]int {
+	out := map[edgeKey]int{}
+	for _, b := range fi.Fn.Blocks {
+		iff, ok := blockTerm(b).(*ssa.If)
+		if !ok || len(b.Succs) != 2 {
+			continue
+		}
+		cond := iff.Cond
+		flip := false
+		for {
+			u, ok := cond.(*ssa.UnOp)
+			if !ok || u.Op != token.NOT {
+				break
+			}
+			flip = !flip
+			cond = u.X
+		}
+		call, ok := cond.(*ssa.Call)
+		if !ok {
+			continue
+		}
+		val, known, n := c05EvalPredicate(w, call, func(l string) string { return l }, recvs, 3)
+		if !known || n == 0 {
+			continue
+		}
+		// cond is val != flip: the edge for the other truth value is infeasible
+		truth := val != flip
+		if truth {
+			out[edgeKey{b.Index, 1}] = n
+		} else {
+			out[edgeKey{b.Index, 0}] = n
+		}
+	}
+	return out
+}
+
+// c05EvalPredicate evaluates the boolean module function called by call under the assumption that the loads whose
+// printed form, rendered in the frame the assumption is stated in (up), is in recvs are nil. known=false: not one value.
+func c05EvalPredicate(w *World, call *ssa.Call, up func(string) string, recvs map[string]bool, depth int) (val, known bool, nread int) {
+	g := staticCallee(call)
+	if depth <= 0 || g == nil || g.Blocks == nil || !w.IsProductFn(g) || len(call.Call.Args) != len(g.Params) || g.Signature.Results().Len() != 1 || !isBoolType(g.Signature.Results().At(0).Type()) {
+		return false, false, 0
+	}
+	for _, b := range g.Blocks {
+		for _, in := range b.Instrs {
+			switch x := in.(type) {
+			case *ssa.Store:
+				if _, isField := x.Addr.(*ssa.FieldAddr); isField {
+					return false, false, 0
+				}
+			case *ssa.Defer, *ssa.Go:
+				return false, false, 0
+			}
+		}
+	}
+	names := make([]string, len(g.Params))
+	descs := make([]string, len(g.Params))
+	for i, p := range g.Params {
+		names[i] = p.Name()
+		descs[i] = desc(call.Call.Args[i])
+	}
+	toTop := func(l string) string { return up(substParams(l, names, descs)) }
+	read := map[string]bool{}
+	ip := &Interp{Fn: g, MaxPaths: 2000}
+	ip.Hook = func(in ssa.Instruction, env map[ssa.Value]AVal) (AVal, bool) {
+		switch x := in.(type) {
+		case *ssa.UnOp:
+			if x.Op == token.MUL {
+				if _, isField := x.X.(*ssa.FieldAddr); isField {
+					if d := toTop(desc(x)); recvs[d] {
+						read[d] = true
+						return AVal{Kind: aNil}, true
+					}
+				}
+			}
+		case *ssa.Call:
+			if v, known, n := c05EvalPredicate(w, x, toTop, recvs, depth-1); known && n > 0 {
+				return AVal{Kind: aBool, B: v}, true
+			}
+		}
+		return AVal{}, false
+	}
+	outs := ip.Run(g.Blocks[0], nil, map[ssa.Value]AVal{}, nil, nil)
+	if ip.Overflow {
+		return false, false, 0
+	}
+	first := true
+	for _, o := range outs {
+		if o.Panic {
+			continue
+		}
+		if o.Ret == nil || len(o.Ret.Results) != 1 {
+			return false, false, 0
+		}
+		a := ip.val(o.Ret.Results[0], o.Env)
+		if a.Kind != aBool {
+			return false, false, 0
+		}
+		if first {
+			val, first = a.B, false
+		} else if val != a.B {
+			return false, false, 0
+		}
+	}
+	if first {
+		return false, false, 0
+	}
+	return val, true, len(read)
 }
